@@ -208,6 +208,9 @@ def cQ(fr):
 
 
 # ----------------------------------------------------------------------------
+NONTRIV_CAP = 3000000
+
+
 class Ctx:
     def __init__(self, prop, tier, seed):
         self.prop = prop
@@ -238,7 +241,9 @@ class Ctx:
 
     def nontriv(self, key):
         """Register a distinct non-trivial case (hashed)."""
-        self.nontrivial.add(hashlib.md5(repr(key).encode()).hexdigest()[:12])
+        # distinct cases are counted exactly up to NONTRIV_CAP and as a lower bound beyond (memory of the thorough tiers)
+        if len(self.nontrivial) < NONTRIV_CAP:
+            self.nontrivial.add(hash(repr(key)))
 
     def sample(self, obj, cap=8):
         if len(self.cov["samples"]) < cap:
